@@ -674,6 +674,40 @@ type regularSite struct {
 
 var regular []regularSite
 
+// sites whose whole loop body is one statement of a recognised shape
+var shaped []regularSite
+
+func bodyShape(rs *ast.RangeStmt) string {
+	if len(rs.Body.List) != 1 {
+		return ""
+	}
+	as, ok := rs.Body.List[0].(*ast.AssignStmt)
+	if !ok || len(as.Lhs) != 1 || len(as.Rhs) != 1 {
+		return ""
+	}
+	if as.Tok == token.OR_ASSIGN {
+		return "flag-or"
+	}
+	ix, ok := as.Lhs[0].(*ast.IndexExpr)
+	if !ok || as.Tok != token.ASSIGN {
+		return ""
+	}
+	switch v := as.Rhs[0].(type) {
+	case *ast.Ident:
+		if v.Name == "true" {
+			return "set-insert"
+		}
+	case *ast.BasicLit:
+		return "set-insert"
+	}
+	if key, ok := rs.Key.(*ast.Ident); ok && key.Name != "_" {
+		if id, ok := ix.Index.(*ast.Ident); ok && id.Name == key.Name {
+			return "per-key-write"
+		}
+	}
+	return ""
+}
+
 type keyInit struct {
 	file, fn, field, expr string
 	ok                    bool
@@ -813,14 +847,28 @@ func scanSortKeys(rel string, name string, fd *ast.FuncDecl) {
 			if sorter, arg := sortCallOn(n); sorter == "sort.Ints" || sorter == "sort.Strings" {
 				sorts = append(sorts, [2]string{sorter, arg})
 			}
-		case *ast.BlockStmt:
-			for i, st := range n.List {
+		case *ast.BlockStmt, *ast.CaseClause, *ast.CommClause:
+			var stmts []ast.Stmt
+			switch b := n.(type) {
+			case *ast.BlockStmt:
+				stmts = b.List
+			case *ast.CaseClause:
+				stmts = b.Body
+			case *ast.CommClause:
+				stmts = b.Body
+			}
+			for i, st := range stmts {
 				rs, ok := st.(*ast.RangeStmt)
 				if !ok {
 					continue
 				}
 				idx, isSite := siteOfRange[rs]
-				if !isSite || i+1 >= len(n.List) || len(rs.Body.List) != 1 {
+				if isSite {
+					if sh := bodyShape(rs); sh != "" {
+						shaped = append(shaped, regularSite{sites[idx], sh})
+					}
+				}
+				if !isSite || i+1 >= len(stmts) || len(rs.Body.List) != 1 {
 					continue
 				}
 				as, ok := rs.Body.List[0].(*ast.AssignStmt)
@@ -834,7 +882,7 @@ func scanSortKeys(rel string, name string, fd *ast.FuncDecl) {
 				if id, ok := call.Fun.(*ast.Ident); !ok || id.Name != "append" || exprText(call.Args[0]) != exprText(as.Lhs[0]) {
 					continue
 				}
-				if sorter, arg := sortCallOn(n.List[i+1]); sorter != "" && arg == exprText(as.Lhs[0]) {
+				if sorter, arg := sortCallOn(stmts[i+1]); sorter != "" && arg == exprText(as.Lhs[0]) {
 					if sorter == "sort.Sort" || sorter == "sort.Stable" {
 						// the comparator is the Less of the slice type: xs := make(T, ...)
 						elem := "?"
@@ -1089,6 +1137,13 @@ func main() {
 	}
 	sb.WriteString("\n(* map-range sites of the regular shape  for k := range M { xs = append(xs, E) } ; sort.X(xs)  with the sorter *)\n")
 	fmt.Fprintf(&sb, "Definition regular_collect_sort_sites : list ((string * string * string * nat) * string) := [\n%s\n].\n", strings.Join(regItems, ";\n"))
+	sort.Slice(shaped, func(i, j int) bool { return less([]site{shaped[i].s, shaped[j].s})(0, 1) })
+	regItems = nil
+	for _, rg := range shaped {
+		regItems = append(regItems, fmt.Sprintf("  ((%s, %s, %s, %d%%nat), %s)", coqStr(rg.s.file), coqStr(rg.s.fn), coqStr(rg.s.expr), rg.s.ord, coqStr(rg.sorter)))
+	}
+	sb.WriteString("\n(* map-range sites whose whole body is one statement:  m[E] = true/const (set-insert),  dst[key] = E (per-key-write),  x |= E (flag-or) *)\n")
+	fmt.Fprintf(&sb, "Definition shaped_fold_sites : list ((string * string * string * nat) * string) := [\n%s\n].\n", strings.Join(regItems, ";\n"))
 	if err := os.WriteFile(filepath.Join(os.Args[2], "MapSitesGen.v"), []byte(sb.String()), 0o644); err != nil {
 		die("%v", err)
 	}
